@@ -30,11 +30,13 @@ func (r *propRun) execLLVC() int {
 	def := r.def
 	r.notes = map[string]bool{}
 	llvc.RepoBPFDir = filepath.Join(r.repo, "bpf")
-	timeout := 60 * time.Second
+	// deterministic budgets decide; wall limits are generous. The two-packet token-bucket contract
+	// needs about 1.5e8 z3 resource units: the quick limit leaves a factor of more than two.
+	timeout := 180 * time.Second
 	cache := filepath.Join(verifDir, ".cache", "smt")
-	rlimit := int64(60_000_000)
+	rlimit := int64(400_000_000)
 	if r.tier == "thorough" {
-		timeout, rlimit, cache = 180*time.Second, 600_000_000, ""
+		timeout, rlimit, cache = 600*time.Second, 2_000_000_000, ""
 	}
 	solver := smt.NewSolver(timeout, cache)
 	solver.RLimit = rlimit
